@@ -161,6 +161,163 @@ def build(uni):
         "literals) and a PSy-layer name; the name is determined by and "
         "determines the text (precondition NAME_TEXT, established by "
         "Arguments / the symbol table, not under contract)")
+    return [c] + build_alg_gen(uni)
+
+
+def build_alg_gen(uni):
+    """Alg.gen (the default LFRic algorithm-layer rewriting): the k-th
+    statement that IS an invoke call (keyword compared without regard to
+    case, as the parser does) is replaced by a call of the k-th PSy-layer
+    routine with that routine's unique argument list; no other call
+    statement is touched; at least one invoke or NoInvokesError"""
+    from pyvc.values import VStr, VTuple, VClass, STR
+    AG = "alg_gen.py"
+    INT = z3.IntSort()
+    uni.fields.update({"$callee": "str", "$argtext": "str", "$used": "str",
+                       "_invoke_name": "str", "$rname": "str",
+                       "$alg_args": "str"})
+    AL0 = z3.Const("H0_$alloc", z3.ArraySort(Ref, BOOL))
+    STMTS = z3.Function("call_statements_of", Ref, Ref)
+    INVS = z3.Function("psy_invokes_of", Ref, Ref)
+    LOWER = uni.uf("str_lower", ["str"], "str")
+    JOIN = uni.uf("str_join_opaque", ["str", "str"], "str")
+    uni.join_uf = True
+    RANK = z3.Function("invokes_before", Ref, INT, INT)
+
+    def h_walk(it, args, kw, st, fr):
+        r = STMTS(fr.self_val.e)
+        st.assume(z3.And(r != NULLC, z3.Select(AL0, r)))
+        return VRef(r, "list", "CallStmt")
+
+    def h_invoke_list(it, s, a, k, st, fr):
+        r = INVS(s.e)
+        st.assume(z3.And(r != NULLC, z3.Select(AL0, r)))
+        return VRef(r, "list", "PsyInvoke")
+
+    def h_no_children(it, s, a, k, st, fr):
+        new = it.alloc(st, "list", "Obj", "nochildren")
+        st.write("$len", new.e, z3.IntVal(0), "int")
+        return new
+
+    def h_items(it, s, a, k, st, fr):
+        if a:       # statement.items = (new_name, new_args)
+            name, argl = a[0].items
+            st.write("$callee", s.e, it.to_z3(name), "str")
+            st.write("$argtext", s.e, it.to_z3(argl), "str")
+            return NONE
+        return VTuple([VStr(st.read("$callee", s.e, "str")),
+                       VStr(st.read("$argtext", s.e, "str"))])
+
+    uni.consts.update({
+        "walk": VFunc("hook", fn=h_walk),
+        "Call_Stmt": VClass("Call_Stmt"), "Part_Ref": VClass("Part_Ref"),
+        "Section_Subscript_List": VFunc(
+            "hook", fn=lambda it, a, k, st, fr: a[0]),
+        "_adduse": VFunc("hook", fn=lambda it, a, k, st, fr: NONE),
+        "_rm_kernel_use_stmts": VFunc("hook",
+                                      fn=lambda it, a, k, st, fr: NONE),
+        "STMTS": VFunc("hook", fn=lambda it, a, k, st, fr: VRef(
+            STMTS(a[0].e), "list", "CallStmt")),
+        "INVS": VFunc("hook", fn=lambda it, a, k, st, fr: VRef(
+            INVS(a[0].e), "list", "PsyInvoke")),
+        "ISINV": VFunc("hook", fn=lambda it, a, k, st, fr: VBool(
+            LOWER(fr.old.read("$callee", a[1].e, "str")
+                  if fr.old is not None else st.read("$callee", a[1].e,
+                                                     "str")) ==
+            LOWER(st.read("_invoke_name", a[0].e, "str")))),
+        "RANK": VFunc("hook", fn=lambda it, a, k, st, fr: VInt(
+            RANK(a[0].e, it.as_int(a[1])))),
+        "CALLEE": VFunc("hook", fn=lambda it, a, k, st, fr: VStr(st.read(
+            "$callee", a[0].e, "str"))),
+        "ARGTEXT": VFunc("hook", fn=lambda it, a, k, st, fr: VStr(st.read(
+            "$argtext", a[0].e, "str"))),
+        "RNAME": VFunc("hook", fn=lambda it, a, k, st, fr: VStr(st.read(
+            "$rname", a[0].e, "str"))),
+        "ALGARGS": VFunc("hook", fn=lambda it, a, k, st, fr: VStr(JOIN(
+            z3.StringVal(", "), st.read("$alg_args", a[0].e, "str")))),
+    })
+    uni.prop_hooks.update({
+        "CallStmt.items": h_items,
+        "CallStmt.children": lambda it, s, a, k, st, fr: VTuple(
+            [NONE, VRef(s.e, "ArgSpec")]),
+        # the kernel-use bookkeeping of gen() is not modelled: no children
+        "ArgSpec.children": h_no_children,
+        "Alg._ast": lambda it, s, a, k, st, fr: VRef(s.e, "AstOf"),
+        "AstOf.content": lambda it, s, a, k, st, fr: VRef(s.e, "Obj"),
+        "Alg._psy": lambda it, s, a, k, st, fr: VRef(s.e, "PsyOf"),
+        "PsyOf.invokes": lambda it, s, a, k, st, fr: VRef(s.e, "InvokesOf"),
+        "PsyOf.name": lambda it, s, a, k, st, fr: VStr(
+            z3.StringVal("psy_module")),
+        "InvokesOf.invoke_list": h_invoke_list,
+        "PsyInvoke.name": lambda it, s, a, k, st, fr: VStr(st.read(
+            "$rname", s.e, "str")),
+        "PsyInvoke.alg_unique_args": lambda it, s, a, k, st, fr: VStr(
+            st.read("$alg_args", s.e, "str")),
+    })
+    PRE = ("STMTS(self) is not None and INVS(self) is not None and "
+           "len(STMTS(self)) >= 0 and RANK(self, 0) == 0 and "
+           "forall(lambda q: implies(0 <= q and q < len(STMTS(self)), "
+           "at(STMTS(self), q) is not None and "
+           "RANK(self, q + 1) == RANK(self, q) + "
+           "ite(ISINV(self, at(STMTS(self), q)), 1, 0) and "
+           "forall(lambda p: implies(0 <= p and p < q, "
+           "at(STMTS(self), p) is not at(STMTS(self), q))))) and "
+           "len(INVS(self)) == RANK(self, len(STMTS(self))) and "
+           "forall(lambda p, q: implies(0 <= p and p <= q and "
+           "q <= len(STMTS(self)), RANK(self, p) <= RANK(self, q))) and "
+           "forall(lambda q: implies(0 <= q and q < len(INVS(self)), "
+           "at(INVS(self), q) is not None))")
+    c = Contract(
+        f"{AG}:Alg.gen",
+        params={"self": "Alg"},
+        requires=[("parsed", PRE)],
+        ensures=[
+            ("kth_invoke_calls_the_kth_psy_routine_with_its_arguments",
+             "forall(lambda q: implies(0 <= q and q < len(STMTS(self)) and "
+             "ISINV(self, at(STMTS(self), q)), "
+             "CALLEE(at(STMTS(self), q)) == "
+             "RNAME(at(INVS(self), RANK(self, q))) and "
+             "ARGTEXT(at(STMTS(self), q)) == "
+             "ALGARGS(at(INVS(self), RANK(self, q)))))"),
+            ("other_calls_untouched",
+             "forall(lambda q: implies(0 <= q and q < len(STMTS(self)) and "
+             "not ISINV(self, at(STMTS(self), q)), "
+             "CALLEE(at(STMTS(self), q)) == "
+             "old(CALLEE(at(STMTS(self), q)))))"),
+        ],
+        raises={"NoInvokesError": ("iff", "RANK(self, len(STMTS(self))) "
+                                          "== 0")},
+        modifies=["$callee", "$argtext", "$used", "$set.str", "$card"],
+        covers=[("two", "RANK(self, len(STMTS(self))) >= 2")])
+    uni.contracts["Alg.gen:top"] = c
+    uni.loopspecs["Alg.gen"] = {
+        0: LoopSpec(invariants=[
+            ("iter", "_iter is STMTS(self)"),
+            ("count", "idx == RANK(self, _k) and idx >= 0"),
+            ("done", "forall(lambda q: implies(0 <= q and q < _k, "
+                     "ite(ISINV(self, at(STMTS(self), q)), "
+                     "CALLEE(at(STMTS(self), q)) == "
+                     "RNAME(at(INVS(self), RANK(self, q))) and "
+                     "ARGTEXT(at(STMTS(self), q)) == "
+                     "ALGARGS(at(INVS(self), RANK(self, q))), "
+                     "CALLEE(at(STMTS(self), q)) == "
+                     "old(CALLEE(at(STMTS(self), q))))))"),
+            ("todo", "forall(lambda q: implies(_k <= q and "
+                     "q < len(STMTS(self)), CALLEE(at(STMTS(self), q)) == "
+                     "old(CALLEE(at(STMTS(self), q)))))")],
+            modifies=["$callee", "$argtext", "$used", "$set.str", "$card"]),
+        1: LoopSpec(invariants=[
+            ("quiet", "unchanged_since_head('$callee', '$argtext')")],
+            modifies=["$set.str", "$card"]),
+    }
+    uni.note_assumption(
+        "Alg.gen: the fparser2 tree is abstracted to the ordered list of its "
+        "call statements (callee text, argument text); str.lower is an "
+        "uninterpreted function; the PSy layer has exactly one routine per "
+        "statement the parser recognised as an invoke (keyword compared "
+        "without regard to case); ', '.join(alg_unique_args) is an opaque "
+        "string per routine; _adduse / _rm_kernel_use_stmts are not "
+        "modelled")
     return [c]
 
 
